@@ -17,7 +17,8 @@
 
 use dashu_base::{Abs, Gcd, Sign};
 use dashu_int::verif::{
-    buffer_default_capacity, buffer_max_compact_capacity, ibig_repr_info, BufferHandle,
+    buffer_default_capacity, buffer_max_compact_capacity, ibig_repr_info, ubig_repr_info,
+    BufferHandle,
     BUFFER_MAX_CAPACITY,
 };
 use dashu_int::{DoubleWord, IBig, UBig, Word};
@@ -361,6 +362,40 @@ fn drain_events() -> String {
     out
 }
 
+/// drain the event log and return the deallocation sizes (in words, ascending) as `D3,D5` (`.` if
+/// none); anything that is not a deallocation, or not a whole number of words, is shown with `?`
+fn drain_sorted_drops() -> String {
+    let n = unsafe { (*st()).nlog };
+    let wsz = std::mem::size_of::<Word>();
+    let mut ds: Vec<usize> = Vec::new();
+    let mut odd: Vec<String> = Vec::new();
+    for i in 0..n {
+        let e = unsafe { (*st()).log[i] };
+        if e.kind == EV_DEALLOC && e.a % wsz == 0 {
+            ds.push(e.a / wsz);
+        } else {
+            odd.push(format!("?{}:{}b:{}b", e.kind, e.a, e.b));
+        }
+    }
+    unsafe {
+        (*st()).nlog = 0;
+    }
+    ds.sort();
+    let mut parts: Vec<String> = ds.iter().map(|c| format!("D{}", c)).collect();
+    parts.extend(odd);
+    if parts.is_empty() {
+        ".".to_string()
+    } else {
+        parts.join(",")
+    }
+}
+
+fn clear_log() {
+    unsafe {
+        (*st()).nlog = 0;
+    }
+}
+
 /// wrap the installed panic hook: what the hook allocates is not recorded, and from the end of the
 /// hook to the `catch_unwind` the allocations belong to the unwinder (payload box, exception object)
 /// while the deallocations are the destructors of the unwound frames (still recorded)
@@ -466,7 +501,15 @@ enum Reg {
     Empty,
     Buf(BufferHandle),
     Val(IBig),
+    /// `&'static IBig` backed by a `static` word array (`from_static_words`, ≥ 3 words): read only,
+    /// never dropped
+    Stat(&'static IBig),
 }
+
+/// everything leaked on purpose for `static:` registers stays reachable from here (so that Miri's
+/// leak check does not count it)
+static KEEP_WORDS: std::sync::Mutex<Vec<&'static [Word]>> = std::sync::Mutex::new(Vec::new());
+static KEEP_VALS: std::sync::Mutex<Vec<&'static IBig>> = std::sync::Mutex::new(Vec::new());
 
 enum BOp {
     Alloc(usize, usize),
@@ -501,6 +544,19 @@ enum BOp {
     Neg(usize),
     AsSlice(usize),
     Drop(usize),
+    Static(usize, Vec<Word>, bool),
+    BView(usize, usize),
+    PushT(usize, usize, usize),
+    Over(usize, Vec<Word>),
+    Ist(usize),
+}
+
+fn p_bit(s: &str) -> Option<bool> {
+    match s {
+        "1" => Some(true),
+        "0" => Some(false),
+        _ => None,
+    }
 }
 
 fn parse_bop(tok: &str) -> Option<BOp> {
@@ -545,6 +601,11 @@ fn parse_bop(tok: &str) -> Option<BOp> {
         ["neg", k] => BOp::Neg(p_reg(k)?),
         ["asslice", k] => BOp::AsSlice(p_reg(k)?),
         ["drop", k] => BOp::Drop(p_reg(k)?),
+        ["static", k, ws, s] => BOp::Static(p_reg(k)?, p_ws(ws)?, p_bit(s)?),
+        ["bview", k, j] => BOp::BView(p_reg(k)?, p_reg(j)?),
+        ["pusht", k, j, lo] => BOp::PushT(p_reg(k)?, p_reg(j)?, p_nat(lo)?),
+        ["over", k, ws] => BOp::Over(p_reg(k)?, p_ws(ws)?),
+        ["ist", k] => BOp::Ist(p_reg(k)?),
         _ => return None,
     })
 }
@@ -555,12 +616,12 @@ impl BOp {
         use BOp::*;
         match *self {
             BClone(k, j) | RClone(k, j) | PushSF(k, j) | CfsF(k, j) | BCloneFrom(k, j)
-            | RCloneFrom(k, j) => (k, Some(j)),
+            | RCloneFrom(k, j) | BView(k, j) | PushT(k, j, _) => (k, Some(j)),
             Alloc(k, _) | AllocX(k, _) | FromW(k, _) | Word(k, _) | DWord(k, _, _) | Ones(k, _)
             | Ensure(k, _) | EnsureX(k, _) | Shrink(k) | Push(k, _) | PushR(k, _) | Zeros(k, _)
             | ZerosF(k, _) | PushS(k, _) | PopZ(k) | Trunc(k, _) | Erase(k, _) | Deref(k)
             | Cfs(k, _) | Boxed(k) | ToU(k) | ToB(k) | Sign(k, _) | Neg(k) | AsSlice(k)
-            | Drop(k) => (k, None),
+            | Drop(k) | Static(k, _, _) | Over(k, _) | Ist(k) => (k, None),
         }
     }
 }
@@ -573,6 +634,10 @@ fn slot_str(r: &Reg) -> String {
             let (cap, len) = ibig_repr_info(v);
             format!("r{}/{}/{}", cap, len, ws_str(v.as_sign_words().1))
         }
+        Reg::Stat(v) => {
+            let (cap, len) = ibig_repr_info(v);
+            format!("s{}/{}/{}", cap, len, ws_str(v.as_sign_words().1))
+        }
     }
 }
 
@@ -582,6 +647,7 @@ fn view(r: &Reg) -> Option<&[Word]> {
         Reg::Empty => None,
         Reg::Buf(b) => Some(b.words()),
         Reg::Val(v) => Some(v.as_sign_words().1),
+        Reg::Stat(v) => Some(v.as_sign_words().1),
     }
 }
 
@@ -593,6 +659,9 @@ fn is_buf(r: &Reg) -> bool {
 }
 fn is_val(r: &Reg) -> bool {
     matches!(r, Reg::Val(_))
+}
+fn is_stat(r: &Reg) -> bool {
+    matches!(r, Reg::Stat(_))
 }
 
 fn take_buf(regs: &mut [Reg; R], k: usize) -> Option<BufferHandle> {
@@ -684,6 +753,7 @@ fn exec_bop(regs: &mut [Reg; R], op: &BOp) -> Option<Outcome> {
             }
             let r = match &regs[*j] {
                 Reg::Val(src) => guarded(|| src.clone()),
+                Reg::Stat(src) => guarded(|| (*src).clone()),
                 _ => return None,
             };
             Some(r.map(|v| regs[k] = Reg::Val(v)))
@@ -741,12 +811,13 @@ fn exec_bop(regs: &mut [Reg; R], op: &BOp) -> Option<Outcome> {
             )
         }
         BOp::RCloneFrom(_, j) => {
-            if k == *j || !is_val(&regs[k]) || !is_val(&regs[*j]) {
+            if k == *j || !is_val(&regs[k]) || !(is_val(&regs[*j]) || is_stat(&regs[*j])) {
                 return None;
             }
             let mut v = take_val(regs, k)?;
             let r = match &regs[*j] {
                 Reg::Val(src) => guarded(|| v.clone_from(src)),
+                Reg::Stat(src) => guarded(|| v.clone_from(*src)),
                 _ => unreachable!(),
             };
             regs[k] = Reg::Val(v);
@@ -771,11 +842,84 @@ fn exec_bop(regs: &mut [Reg; R], op: &BOp) -> Option<Outcome> {
             Reg::Val(v) => Some(guarded(|| {
                 black_box(v.as_sign_words());
             })),
+            Reg::Stat(v) => Some(guarded(|| {
+                black_box(v.as_sign_words());
+            })),
             _ => None,
         },
         BOp::Drop(_) => {
+            // a `Stat` register holds a reference: dropping it does nothing
             let r = std::mem::replace(&mut regs[k], Reg::Empty);
             Some(guarded(move || drop(r)))
+        }
+        BOp::Static(_, ws, neg) => {
+            if !is_empty(&regs[k]) {
+                return None;
+            }
+            // the `static DATA: [Word; N]` of the macros: leaked outside recording
+            let data: &'static [Word] = Box::leak(ws.clone().into_boxed_slice());
+            KEEP_WORDS.lock().unwrap().push(data);
+            let sign = if *neg { Sign::Negative } else { Sign::Positive };
+            // SAFETY (of the harness): a non-inline result is only ever kept behind `&'static` and
+            // never dropped or mutated; the requirements on `data` are what the asserts check
+            let r = guarded(|| unsafe { IBig::from_static_words(sign, data) });
+            Some(r.map(|v| {
+                let (cap, _) = ibig_repr_info(&v);
+                if cap.unsigned_abs() <= 2 {
+                    regs[k] = Reg::Val(v);
+                } else {
+                    let sv: &'static IBig = Box::leak(Box::new(v));
+                    KEEP_VALS.lock().unwrap().push(sv);
+                    regs[k] = Reg::Stat(sv);
+                }
+            }))
+        }
+        BOp::BView(_, j) => {
+            if k == *j || !is_empty(&regs[k]) {
+                return None;
+            }
+            let r = {
+                let src = view(&regs[*j])?;
+                guarded(|| BufferHandle::from_words(src))
+            };
+            Some(r.map(|b| regs[k] = Reg::Buf(b)))
+        }
+        BOp::PushT(_, j, lo) => {
+            if k == *j || !is_buf(&regs[k]) {
+                return None;
+            }
+            let n = view(&regs[*j])?.len();
+            if *lo > n {
+                // `&words[lo..]` is a slice-index panic before any storage call
+                return Some(Err((
+                    "slice index starts past the end (harness)".to_string(),
+                    "integer/src/buffer.rs:0".to_string(),
+                )));
+            }
+            on_buf_from(regs, k, *j, |b, src| b.push_slice(&src[*lo..]))
+        }
+        BOp::Over(_, ws) => {
+            match &regs[k] {
+                Reg::Buf(b) if b.len() == ws.len() => {}
+                _ => return None,
+            }
+            // a kernel writing through `&mut buffer[..]`: the direct-copy branch of clone_from_slice
+            on_buf(regs, k, |b| b.clone_from_slice(ws))
+        }
+        BOp::Ist(_) => {
+            let v = take_val(regs, k)?;
+            Some(
+                guarded(move || {
+                    let (_s, m) = v.into_parts();
+                    let (cap, _) = ubig_repr_info(&m);
+                    if cap.unsigned_abs() <= 2 {
+                        Reg::Val(IBig::from(m))
+                    } else {
+                        Reg::Buf(BufferHandle::from_ubig(m))
+                    }
+                })
+                .map(|r| regs[k] = r),
+            )
         }
     }
 }
@@ -1415,6 +1559,128 @@ pub fn val_history(toks: &[&str]) -> Res {
     Ok(out.join(" "))
 }
 
+// ================================================================== mem.arith
+
+/// `mem.arith <op> <form> <a> <b>`: exactly one public `UBig` call (`+ - *` in the four ownership
+/// forms, `<< >>` by value / by reference) with the allocator events it causes, then the drops of
+/// the result and of the operands that are still alive.
+pub fn arith_case(args: &[&str]) -> Res {
+    let bad = || Err("bad-op mem.arith".to_string());
+    if args.len() != 4 {
+        return bad();
+    }
+    let (op, form) = (args[0], args[1]);
+    let shift = matches!(op, "shl" | "shr");
+    if !shift && !matches!(op, "add" | "sub" | "mul") {
+        return bad();
+    }
+    let form_ok = if shift { matches!(form, "v" | "r") } else { matches!(form, "rr" | "rv" | "vr" | "vv") };
+    if !form_ok || hex_to_words(args[2]).is_none() {
+        return bad();
+    }
+    let n: usize = if shift {
+        match p_usize(args[3]) {
+            Ok(n) => n,
+            Err(_) => return bad(),
+        }
+    } else {
+        if hex_to_words(args[3]).is_none() {
+            return bad();
+        }
+        0
+    };
+    hist_begin(true);
+    // the operands are built while the pointer table is maintained (so that their later frees and
+    // reallocations are seen) but their construction is not part of the printed events
+    let built = guarded(|| {
+        let a = p_ubig(args[2]).unwrap();
+        let b = if shift { UBig::ZERO } else { p_ubig(args[3]).unwrap() };
+        (a, b)
+    });
+    clear_log();
+    let (a, b) = match built {
+        Ok(x) => x,
+        Err(_) => {
+            hist_end();
+            return bad();
+        }
+    };
+    let (mut a, mut b) = (Some(a), Some(b));
+    let res: Result<UBig, (String, String)> = if shift {
+        if form == "v" {
+            let x = a.take().unwrap();
+            if op == "shl" {
+                guarded(move || x << n)
+            } else {
+                guarded(move || x >> n)
+            }
+        } else {
+            let x = a.as_ref().unwrap();
+            if op == "shl" {
+                guarded(|| x << n)
+            } else {
+                guarded(|| x >> n)
+            }
+        }
+    } else {
+        macro_rules! forms {
+            ($o:tt) => {
+                match form {
+                    "rr" => {
+                        let (x, y) = (a.as_ref().unwrap(), b.as_ref().unwrap());
+                        guarded(|| x $o y)
+                    }
+                    "rv" => {
+                        let x = a.as_ref().unwrap();
+                        let y = b.take().unwrap();
+                        guarded(move || x $o y)
+                    }
+                    "vr" => {
+                        let x = a.take().unwrap();
+                        let y = b.as_ref().unwrap();
+                        guarded(move || x $o y)
+                    }
+                    _ => {
+                        let x = a.take().unwrap();
+                        let y = b.take().unwrap();
+                        guarded(move || x $o y)
+                    }
+                }
+            };
+        }
+        match op {
+            "add" => forms!(+),
+            "sub" => forms!(-),
+            _ => forms!(*),
+        }
+    };
+    let ev = drain_events();
+    let head = match &res {
+        Ok(r) => {
+            let (cap, len) = ubig_repr_info(r);
+            format!("r{}/{}/{}", cap, len, ws_str(r.as_words()))
+        }
+        Err((msg, loc)) => format!("!{}", classify_panic(msg, loc)),
+    };
+    // the result and the operands that were not moved go away
+    let fin = guarded(move || {
+        drop(res);
+        drop(a);
+        drop(b);
+    });
+    let drops = drain_sorted_drops();
+    let (live, dfree, overflow) = counters();
+    hist_end();
+    let mut s = format!("{}|{} end:{}:live={}:dfree={}", head, ev, drops, live, dfree);
+    if let Err((msg, loc)) = fin {
+        s.push_str(&format!(":!{}", classify_panic(&msg, &loc)));
+    }
+    if overflow {
+        s.push_str(":!log-overflow");
+    }
+    Ok(s)
+}
+
 // ================================================================== self test
 
 /// deliberately broken "histories" showing that the counters see a leak, a double free, and the
@@ -1455,10 +1721,63 @@ fn selftest(kind: &str) -> Res {
 
 // ================================================================== dispatch
 
+/// `mem.bump d:<total bytes> <k>:<count> …` — the real `MemoryAllocation`/`Memory` bump allocator through
+/// the `memory_split` hook: offsets (relative to the allocation start) and byte lengths of the nested
+/// slices, then the remainder; `nomem@i` when request i panics with "not enough memory allocated"
+fn bump_case(args: &[&str]) -> Res {
+    let bad = || "bad-op mem.bump".to_string();
+    let total = p_usize(args.first().copied().ok_or_else(bad)?).map_err(|_| bad())?;
+    let mut reqs: Vec<(u8, usize)> = Vec::new();
+    for t in &args[1..] {
+        let p: Vec<&str> = t.split(':').collect();
+        if p.len() != 2 {
+            return Err(bad());
+        }
+        let k = p_nat(p[0]).ok_or_else(bad)?;
+        let c = p_nat(p[1]).ok_or_else(bad)?;
+        if k > 4 {
+            return Err(bad());
+        }
+        reqs.push((k as u8, c));
+    }
+    let run = |n: usize| {
+        let r = &reqs[..n];
+        catch_unwind(AssertUnwindSafe(|| dashu_int::verif::memory_split(total, r)))
+    };
+    let fmt = |v: &[(usize, usize)]| -> Vec<String> { v.iter().map(|(o, l)| format!("{},{}", o, l)).collect() };
+    match run(reqs.len()) {
+        Ok((slices, rem)) => {
+            let mut out = fmt(&slices);
+            out.push(format!("rem:{},{}", rem.0, rem.1));
+            Ok(out.join(" "))
+        }
+        Err(_) => {
+            let (msg, loc) = LAST_PANIC.with(|p| p.borrow_mut().take()).unwrap_or_default();
+            if !msg.contains("not enough memory allocated") {
+                return Ok(format!("!{}", classify_panic(&msg, &loc)));
+            }
+            // the first failing request: the shortest prefix that still panics
+            let mut i = 0;
+            while i < reqs.len() && run(i + 1).is_ok() {
+                i += 1;
+            }
+            let _ = LAST_PANIC.with(|p| p.borrow_mut().take());
+            let mut out = match run(i) {
+                Ok((slices, _)) => fmt(&slices),
+                Err(_) => vec!["?".to_string()],
+            };
+            out.push(format!("nomem@{}", i));
+            Ok(out.join(" "))
+        }
+    }
+}
+
 pub fn dispatch(op: &str, args: &[&str]) -> Option<Res> {
     match op {
         "mem.buf" => Some(buf_history(args)),
         "mem.val" => Some(val_history(args)),
+        "mem.arith" => Some(arith_case(args)),
+        "mem.bump" => Some(bump_case(args)),
         "mem.policy" => Some((|| -> Res {
             if args.len() != 1 {
                 return Err("bad-op mem.policy".to_string());
